@@ -544,6 +544,86 @@ func runC16(cs *c16Case, scratch string, idx int, sr *run.ShardResult) (class, d
 		if c, d := afterCloseChecks(coll, nil); c != "" {
 			return c, d
 		}
+	case "notify-flood":
+		// Asynchronous merger notifications arrive faster than the merger
+		// drains them (the ping channel is bounded) while writers, readers and
+		// the persister keep going: nothing may block forever.
+		cfg := cs.Cfg
+		if cfg.Backing == "none" {
+			cfg.Backing = "custom"
+		}
+		e := eng.NewExec(cfg, dir, false)
+		defer e.D.Detach()
+		var dseed = cs.Seed
+		e.D.Delay = func(point string) {
+			x := atomic.AddUint64(&dseed, 0x9E3779B97F4A7C15)
+			x = (x ^ (x >> 30)) * 0xBF58476D1CE4E5B9
+			if (x>>20)%6 == 0 {
+				time.Sleep(time.Duration(10+(x>>8)%300) * time.Microsecond)
+			}
+		}
+		if err := e.Open(); err != nil {
+			return "inconclusive", "open: " + err.Error()
+		}
+		coll := e.Coll
+		nt := coll.(notifier)
+		set := &callSet{}
+		var stop int32
+		for w := 0; w < cs.Writers; w++ {
+			w := w
+			set.goCall(fmt.Sprintf("writer#%d", w), func() error {
+				for i := 0; i < cs.N; i++ {
+					if err := execOne(coll, fmt.Sprintf("w%d/%d", w, i)); err != nil {
+						return err
+					}
+				}
+				return nil
+			})
+		}
+		set.goCall("reader", func() error {
+			for i := 0; i < cs.N*4; i++ {
+				s, err := coll.Snapshot()
+				if err != nil {
+					return err
+				}
+				s.Get([]byte("w0/0"), moss.ReadOptions{})
+				s.Close()
+			}
+			return nil
+		})
+		for g := 0; g < 3; g++ {
+			set.goCall(fmt.Sprintf("async-notifier#%d", g), func() error {
+				for i := 0; i < cs.N*40 && atomic.LoadInt32(&stop) == 0; i++ {
+					nt.NotifyMerger("verif", false)
+				}
+				return nil
+			})
+		}
+		h, inc := set.waitAll(wd)
+		atomic.StoreInt32(&stop, 1)
+		if h != "" {
+			return "hang/async-notification-flood", h
+		} else if inc != "" {
+			return "inconclusive", inc
+		}
+		set.mu.Lock()
+		for _, c := range set.calls {
+			if c.err != nil {
+				set.mu.Unlock()
+				return "call-error", fmt.Sprintf("%s returned %v", c.name, c.err)
+			}
+		}
+		set.mu.Unlock()
+		unit("flooded")
+		set2 := &callSet{}
+		set2.goCall("Close", func() error { return coll.Close() })
+		if h, inc := set2.waitAll(wd); h != "" {
+			return "hang/close-after-flood", h
+		} else if inc != "" {
+			return "inconclusive", inc
+		}
+		e.Coll = nil
+		e.CloseStore()
 	case "random-close":
 		// free-running: writers, readers and notifiers; Close at a random moment
 		e := eng.NewExec(cs.Cfg, dir, false)
@@ -650,7 +730,7 @@ func collClosed(c moss.Collection) bool {
 }
 
 var c16Scenarios = []string{"backpressure-close", "backpressure-release", "close-during-update", "close-merger-waitoutgoing",
-	"notify-racing-close", "lower-stalled-resumed", "random-close", "random-close"}
+	"notify-racing-close", "lower-stalled-resumed", "random-close", "random-close", "notify-flood", "notify-flood"}
 
 func genC16(r *eng.Rng, idx int) *c16Case {
 	sc := c16Scenarios[idx%len(c16Scenarios)]
